@@ -353,35 +353,56 @@ func runC04(c *Ctx) {
 		call string
 	}{{rd, "message.readValue"}, {wr, "message.writeValue"}} {
 		calls := callsNamed(v.fn, v.call)
-		var v2Ifs, extIfs []*ssa.If
+		// edges on which "isV2" holds / "the field is an extension" does not hold, inside the field loop
+		type condEdge struct {
+			iff      *ssa.If
+			yes, no *ssa.BasicBlock
+		}
+		var v2Ifs, extIfs []condEdge
 		for _, iff := range ifsIn(v.fn) {
-			if ex(iff.Cond) == "arg1" && inLoop(iff.Block()) {
-				v2Ifs = append(v2Ifs, iff)
+			if !inLoop(iff.Block()) {
+				continue
 			}
-			if strings.HasSuffix(ex(iff.Cond), ".isExtension") && inLoop(iff.Block()) {
-				extIfs = append(extIfs, iff)
+			if tb, fb, hit := succWhen(iff, "arg1"); hit {
+				v2Ifs = append(v2Ifs, condEdge{iff, tb, fb})
+			}
+			if tb, fb, _, hit := succWhenFunc(iff, func(cs string) bool { return strings.HasSuffix(cs, ".isExtension") && !strings.HasPrefix(cs, "!") }); hit {
+				extIfs = append(extIfs, condEdge{iff, tb, fb})
 			}
 		}
 		ok := len(calls) == 2 && len(v2Ifs) == 1 && len(extIfs) == 1
 		why := fmt.Sprintf("%d value calls, %d isV2 tests, %d isExtension tests in the field loop", len(calls), len(v2Ifs), len(extIfs))
 		if ok {
-			cut := map[edge]bool{{v2Ifs[0].Block(), v2Ifs[0].Block().Succs[0]}: true, {extIfs[0].Block(), extIfs[0].Block().Succs[1]}: true}
-			reach := reachFrom(v2Ifs[0].Block(), cut, map[*ssa.BasicBlock]bool{})
-			// stop at the loop head: compute reachability without passing the loop header again
-			head := v2Ifs[0].Block().Preds[0]
-			reach = reachFrom(v2Ifs[0].Block(), cut, map[*ssa.BasicBlock]bool{head: true})
+			// with the "isV2" edge and the "not an extension" edge cut, no value call may be reachable within one iteration
+			cut := map[edge]bool{{v2Ifs[0].iff.Block(), v2Ifs[0].yes}: true, {extIfs[0].iff.Block(), extIfs[0].no}: true}
+			first := v2Ifs[0].iff.Block()
+			if extIfs[0].iff.Block().Dominates(first) {
+				first = extIfs[0].iff.Block()
+			}
+			head := first.Preds[0]
+			reach := reachFrom(first, cut, map[*ssa.BasicBlock]bool{head: true})
 			for _, ci := range calls {
 				if reach[ci.Block()] {
 					ok = false
 					why = "a field is " + map[string]string{"message.readValue": "decoded", "message.writeValue": "encoded"}[v.call] + " although it is an extension and the frame is v1"
 				}
 			}
-			// and extension test only evaluated under !isV2 (v2 never skips)
-			if !edgeMustPass(v.fn, edge{v2Ifs[0].Block(), v2Ifs[0].Block().Succs[1]}, extIfs[0].Block()) {
+			// v2 never skips: from the isV2 edge a value call is reachable without consulting isExtension
+			reach2 := reachFrom(v2Ifs[0].yes, nil, map[*ssa.BasicBlock]bool{head: true, extIfs[0].iff.Block(): true})
+			any := false
+			for _, ci := range calls {
+				if reach2[ci.Block()] {
+					any = true
+				}
+			}
+			if !any && v2Ifs[0].yes != extIfs[0].iff.Block() {
 				ok = false
 				why = "extension fields are skipped in v2 as well"
 			}
-			// the skip edge goes back to the loop without consuming bytes: true edge of isExtension must not reach the value calls before the head
+			if v2Ifs[0].yes == extIfs[0].iff.Block() {
+				ok = false
+				why = "extension fields are skipped in v2 as well"
+			}
 			for _, ci := range calls {
 				tgt := ex(ci.Common().Args[map[string]int{"message.readValue": 0, "message.writeValue": 1}[v.call]])
 				if !strings.Contains(tgt, "].index)") {
@@ -400,8 +421,7 @@ func runC04(c *Ctx) {
 	if sz := c.Fn("pkg/message", "ReadWriter.size"); sz != nil {
 		ok := false
 		for _, iff := range ifsIn(sz) {
-			if ex(iff.Cond) == "arg0" {
-				t, f := iff.Block().Succs[0], iff.Block().Succs[1]
+			if t, f, hit := succWhen(iff, "arg0"); hit {
 				rt, ok1 := t.Instrs[len(t.Instrs)-1].(*ssa.Return)
 				rf, ok2 := f.Instrs[len(f.Instrs)-1].(*ssa.Return)
 				if ok1 && ok2 && ex(rt.Results[0]) == "recv.sizeExtended" && ex(rf.Results[0]) == "recv.sizeNormal" {
